@@ -244,6 +244,9 @@ def c08_twins(cfg, recipes):
     for name, (contr, rec) in {"on": (True, base), "off": (False, base), "toggled": (cfg.get("contraction", True), recipes)}.items():
         c = dict(cfg)
         c["contraction"] = contr
+        # contraction twins differ by what a contraction rounds away (1e-6); post-selecting a branch of
+        # probability p divides that by p, so the leader keeps to branches of at least 1e-3
+        c["min_branch"] = 1e-3
         if follow is not None:
             c["follow"] = {sid: [dict(x) for x in lst] for sid, lst in follow.items()}
         runs[name] = runner.execute_run(c, recipes=copy.deepcopy(rec), keep_snapshots=True, stop_on_taint=True)
